@@ -66,4 +66,20 @@ CLAIMS = {
               "duration (C01.R2); durations are non-negative (so 0 is neutral for a maximum of end - earliest start)."),
         technique="static analysis: loop summaries of min/max accumulators with iteration-domain classification; affine normal form of the result",
     ),
+    "C02": dict(
+        text=("Decides, for every graph shape rather than for sampled circuits, that the listing loses and duplicates nothing: the "
+              "breadth-first cache builder is summarised as a data flow (every layer recorded; every node hands ALL its successors "
+              "except the branch endpoint to the next layer; only unique_in_order de-duplicates; collector reset per layer; nothing "
+              "else shrinks the collections) and the three iterators must yield every cached node; node equality must include a "
+              "counter-fed identifier; add_to_graph appends exactly one fresh node under the node of its reference on every feasible "
+              "path (parent layer before child layer = causality); every pointer-changing branch method reaches the cache refresh and "
+              "nobody outside the graph classes touches pointers or caches (who-may-call over all functions); the composite expands "
+              "all nodes unconditionally and all 26 leaf classes list exactly [self]; the transitive write set of `operations` "
+              "(call graph + effect analysis) contains no graph / cache / structure location; add returns what it added and every "
+              "sub-circuit is routed through the copying path; copies keep kind / qubits / duration (shared with C05)."),
+        note=("Not decided: behaviour beyond MAX_GRAPH_DEPTH (documented limit). The write of relation_link while listing is a C03 "
+              "matter (C03.H2) and is not a graph location. Trusted: list/set semantics of python; the call graph is annotation "
+              "driven (resolution statistics are in the evidence)."),
+        technique="static analysis: data-flow summary of the traversal loop, feasible-path enumeration, who-may-call scan, call-graph effect sets",
+    ),
 }
